@@ -488,3 +488,5 @@ def run(report, repo):
   from sa.rules import c01 as _c01  # pylint: disable=g-import-not-at-top
   report.guard(_c01.r6_internal_error, report, repo, rule='C08-R7')
   report.guard(_e5.executor_wait_is_unbounded, report, repo, 'C08-R8')
+  from sa.rules import extra5 as _e6  # pylint: disable=g-import-not-at-top
+  report.guard(_e6.plug_types_from_every_phase, report, repo, 'C08-R9')
